@@ -2,6 +2,8 @@ use std::ops::Range;
 
 use crate::air::AsmLine;
 use crate::{dprint, DIAGNOSTIC_CONTEXT_LINES};
+#[cfg(lace_verif)]
+use crate::verif_eprintln as eprintln;
 
 /// Reference to assembly source code.
 ///
